@@ -990,5 +990,19 @@ pub fn gen_objectives(rng: &mut Rng, sp: &SProblem) -> Vec<Value> {
             }
         }
     }
+    // one time in four serving every job is NOT the most important goal (the documentation names minimize-tours as an
+    // objective that competes with minimize-unassigned): fewer tours rank above fewer unassigned jobs, or - one time in
+    // twelve - the number of unassigned jobs is no objective at all. A solution with more unassigned jobs can then be the
+    // better one, in the whole and in every part a decomposing operator compares
+    if rng.chance(1, 4) {
+        os.retain(|o| o["type"] != "minimize-unassigned");
+        if !os.iter().any(|o| o["type"] == "minimize-tours" || o["type"] == "maximize-tours") {
+            os.insert(0, json!({"type": "minimize-tours"}));
+        }
+        if !rng.chance(1, 3) {
+            let at = os.iter().position(|o| o["type"] == "minimize-tours" || o["type"] == "maximize-tours").unwrap() + 1;
+            os.insert(at, json!({"type": "minimize-unassigned"}));
+        }
+    }
     os
 }
